@@ -66,7 +66,7 @@ def main():
             props = args.props.split(",") if args.props else mut["props"]
             for prop in props:
                 t0 = time.time()
-                env = dict(os.environ, VERIF_REPO=wt)
+                env = dict(os.environ, VERIF_REPO=wt, VERIF_EVIDENCE_DIR="/tmp/vf-scratch/evidence", VERIF_REPLAY_DIR="/tmp/vf-scratch/replays")
                 res = sh("cd %s && /venv/bin/python run.py %s --tier %s" % (ROOT, prop, args.tier), env=env)
                 clauses = [l.split("clause:", 1)[1].strip() for l in res.stdout.splitlines() if "clause:" in l]
                 row["checks"][prop] = {"exit": res.returncode, "clauses": clauses, "s": round(time.time() - t0, 1)}
@@ -75,7 +75,7 @@ def main():
         finally:
             sh("git -C /repo worktree remove --force %s" % wt)
             shutil.rmtree(wt, ignore_errors=True)
-            sh("rm -rf %s/replays/found" % ROOT)
+            sh("rm -rf /tmp/vf-scratch")
         results.append(row)
         caught = [p for p, r in row["checks"].items() if r["exit"] == 1]
         print("%-45s tests=%-28s caught_by=%s %s" % (mut["name"], row.get("tests", "-"), ",".join(caught) or "NONE", {p: (r["exit"], r["clauses"][:2], r["s"]) for p, r in row["checks"].items()}))
